@@ -679,9 +679,19 @@ static void gen_ecp_tors(fc_ctx* c)
 	octet* po = fc_raw(c, 72);
 	octet* ao = fc_raw(c, 72);
 	size_t no, n;
-	unsigned k = fc_below(c, 5);
+	unsigned k = fc_below(c, 8);
 	memset(po, 0, 72), memset(ao, 0, 72);
-	if (k < 3)
+	if (k >= 5)
+	{
+		/* fields of one and two words (three and four in the 32-bit configuration): 2^61 - 1, 2^89 - 1,
+		   2^127 - 1.  There the field multiplication uses all of f->deep, so a curve stack that is a
+		   few words short has no slack to hide in (seed C07-k) */
+		no = k == 5 ? 8 : k == 6 ? 12 : 16;
+		memset(po, 0xFF, no);
+		po[no - 1] = k == 5 ? 0x1F : k == 6 ? 0x01 : 0x7F;
+		sk_bytes(&c->rng, ao, no - 1);
+	}
+	else if (k < 3)
 	{
 		bignParamsStd(p, BN[k]);
 		no = p->l / 4;
@@ -823,6 +833,37 @@ static err_t call_ecp_tors(fc_ctx* c)
 		aff = ecToA(af, T3, ec, st);
 		if (c->n[6] == 3 ? aff : (!aff || !wwEq(af, tors, 2 * n)))
 			return ERR_BAD_LOGIC;
+	}
+	/* the degenerate branches of the mixed operations, on a stack of exactly ec->deep:
+	   P + P through ecAddA (same point -> doubling), P - (-P) through ecSubA, and ecDbl agree */
+	{
+		word* PJ = (word*)sk_alloc(W(ec->d * n));
+		word* R1 = (word*)sk_alloc(W(ec->d * n));
+		word* R2 = (word*)sk_alloc(W(ec->d * n));
+		word* R3 = (word*)sk_alloc(W(ec->d * n));
+		word* ng = (word*)sk_alloc(W(2 * n));
+		word* a1 = (word*)sk_alloc(W(2 * n));
+		word* a2 = (word*)sk_alloc(W(2 * n));
+		word* a3 = (word*)sk_alloc(W(2 * n));
+		int f1, f2, f3;
+		st = stk(ec->deep);
+		ecFromA(PJ, tors, ec, st);
+		wwCopy(ng, tors, 2 * n);
+		zzNegMod(ecY(ng, n), ecY(tors, n), f->mod, n);
+		ecAddA(R1, PJ, tors, ec, st);
+		ecSubA(R2, PJ, ng, ec, st);
+		ecDbl(R3, PJ, ec, st);
+		f1 = ecToA(a1, R1, ec, st), f2 = ecToA(a2, R2, ec, st), f3 = ecToA(a3, R3, ec, st);
+		if (f1 != f3 || f2 != f3 || (f3 && (!wwEq(a1, a3, 2 * n) || !wwEq(a2, a3, 2 * n))))
+			return ERR_BAD_LOGIC;
+		if ((c->n[6] == 2) != !f3)
+			return ERR_BAD_LOGIC;                  /* 2 T = O exactly for the point of order 2 */
+		/* P + (-P) and P - P: the point at infinity */
+		ecAddA(R1, PJ, ng, ec, st);
+		ecSubA(R2, PJ, tors, ec, st);
+		if (ecToA(a1, R1, ec, st) || ecToA(a2, R2, ec, st))
+			return ERR_BAD_LOGIC;
+		sk_count("probe.mixed_addition_degenerate_branches", 1);
 	}
 	/* k P has order dividing that of P: the multiple is O or again of that order */
 	if (fl[2])
